@@ -1084,7 +1084,8 @@ static PyObject * matrix_imag(matrix *self) {
 
   matrix *ret;
   if (self->id != COMPLEX) {
-    PyObject *a = PyFloat_FromDouble(0);
+    PyObject *a = (self->id == INT ? PyLong_FromLong(0) : 
+        PyFloat_FromDouble(0));
     ret = Matrix_NewFromNumber(self->nrows, self->ncols, self->id, a, 2);
     Py_DECREF(a);
     if (!ret) return NULL;
